@@ -178,11 +178,63 @@ func (c *FnCtx) oblige(st *State, kind string, site ast.Node, sub, detail string
 		return
 	}
 	if a, b, ok := splitIff(goal); ok {
-		c.oblige1(st, kind, site, sub, detail+"   [direction ==>]", a)
-		c.oblige1(st, kind, site, sub, detail+"   [direction <==]", b)
+		for _, x := range []struct {
+			g   *Term
+			dir string
+		}{{a, "==>"}, {b, "<=="}} {
+			cases := []*Term{x.g} // splitOrAntecedent(x.g) would hide the other disjuncts' terms, which seed instantiations
+			for k, g := range cases {
+				d := detail + "   [direction " + x.dir + "]"
+				if len(cases) > 1 {
+					d = fmt.Sprintf("%s   [direction %s, case %d of %d]", detail, x.dir, k+1, len(cases))
+				}
+				c.oblige1(st, kind, site, sub, d, g)
+			}
+		}
 		return
 	}
 	c.oblige1(st, kind, site, sub, detail, goal)
+}
+
+// splitOrAntecedent: forall xs :: (D1 or ... or Dn) => A   ~>   forall xs :: Dj => A  (j = 1..n)
+func splitOrAntecedent(g *Term) []*Term {
+	if g.Op == "forall" && len(g.Args) == 1 {
+		inner := splitOrAntecedent(g.Args[0])
+		if len(inner) < 2 {
+			return []*Term{g}
+		}
+		var out []*Term
+		for _, x := range inner {
+			gx := *g
+			gx.Args = []*Term{x}
+			gx.Pats = nil
+			out = append(out, &gx)
+		}
+		return out
+	}
+	if g.Op == "=>" && len(g.Args) == 2 {
+		var ds []*Term
+		var flat func(x *Term)
+		flat = func(x *Term) {
+			if x.Op == "or" && len(x.Bound) == 0 {
+				for _, a := range x.Args {
+					flat(a)
+				}
+				return
+			}
+			ds = append(ds, x)
+		}
+		flat(g.Args[0])
+		if len(ds) < 2 {
+			return []*Term{g}
+		}
+		var out []*Term
+		for _, d := range ds {
+			out = append(out, mkImplies(d, g.Args[1]))
+		}
+		return out
+	}
+	return []*Term{g}
 }
 
 // splitIff: forall xs :: (A = B)  ~>  forall xs :: A => B ,  forall xs :: B => A   (Bool-sorted A, B that are not literals)
@@ -214,6 +266,35 @@ func (c *FnCtx) oblige1(st *State, kind string, site ast.Node, sub, detail strin
 	var assume []*Term
 	for _, a := range st.pc {
 		assume = append(assume, splitIffFact(a)...)
+	}
+	// A universally quantified goal is proved for fresh constants, and every assumed universal fact with the same
+	// binder list (typically the same invariant in an earlier state, or the corresponding invariant of an inner or
+	// outer loop) is instantiated at these constants: the principal instantiation of a step proof no longer depends
+	// on trigger terms being present.
+	if goal.Op == "forall" && len(goal.Args) == 1 && len(goal.Bound) > 0 {
+		m := map[string]*Term{}
+		for _, b := range goal.Bound {
+			m[b.Name] = c.smt.freshConst("sk_"+strings.SplitN(b.Name, "!", 2)[0], b.Sort)
+		}
+		same := func(bs []Bound) bool {
+			if len(bs) != len(goal.Bound) {
+				return false
+			}
+			for i := range bs {
+				if bs[i] != goal.Bound[i] {
+					return false
+				}
+			}
+			return true
+		}
+		var inst []*Term
+		for _, a := range assume {
+			if a.Op == "forall" && len(a.Args) == 1 && same(a.Bound) {
+				inst = append(inst, subst(a.Args[0], m))
+			}
+		}
+		assume = append(assume, inst...)
+		goal = subst(goal.Args[0], m)
 	}
 	if g := st.guard(); !isLit(g, "true") {
 		assume = append(assume, g)
